@@ -128,7 +128,7 @@ pub fn profile_for(prop: &str, cancelable: bool, rng: &mut Rng) -> Profile {
             w.anew = 3;
             w.acall = 8;
             w.adrop = 2;
-            pf.adapter_kinds = vec![AKind::Future, AKind::Stream, AKind::Sink];
+            pf.adapter_kinds = vec![AKind::Future, AKind::Stream, AKind::Sink, AKind::Duplex];
             pf.p_noop_parent = 400;
             pf.p_traceless_scope = 40;
             pf.p_unsampled = 250;
@@ -197,7 +197,7 @@ pub fn profile_for(prop: &str, cancelable: bool, rng: &mut Rng) -> Profile {
             w.adrop = 3;
             w.curlocal = 5;
             w.sleep = 3;
-            pf.adapter_kinds = vec![AKind::Stream, AKind::Sink];
+            pf.adapter_kinds = vec![AKind::Stream, AKind::Sink, AKind::Duplex];
             pf.probe_scopes = true;
             pf.threads = (1, 3);
             pf.p_unsampled = 30;
@@ -245,6 +245,10 @@ pub fn profile_for(prop: &str, cancelable: bool, rng: &mut Rng) -> Profile {
             }
         }
         _ => {}
+    }
+    // special id values (0, 1, MAX, top bit, ...) in one program out of six everywhere
+    if !pf.boundary_ids {
+        pf.boundary_ids = rng.chance(1, 6);
     }
     // user code that panics inside tracing scopes (contained by its caller)
     w.unwind = match prop {
